@@ -103,3 +103,18 @@ Definition C17_close_completes_full_statement : Prop :=
   forall b h, valid_base b -> nowrap_at b h -> closes h ->
   forall i, (i < length (call_serials (trace1_at b h)))%nat -> ~ In (ECancel i) h ->
   exists k, count_complete i (trace1_at b (settled h k)) = 1%nat.
+
+(* ---- time (for the blocking wait) --------------------------------------- *)
+(* A clock reading is seconds + microseconds, 0 <= microseconds < 10^6; the
+   time between two readings in microseconds is what "the timeout expires"
+   is measured against: a timeout of ms milliseconds has expired at reading
+   [now] iff at least ms * 1000 microseconds have passed since [start]. *)
+From Coq Require Import ZArith.
+From DV Require Import PendingCall.BlockTime.
+Definition us_of (t : tv) : Z := (tv_sec t * 1000000 + tv_usec t)%Z.
+Definition normal (t : tv) : Prop := (0 <= tv_usec t < 1000000)%Z.
+Definition expired (start now : tv) (ms : Z) : Prop := (us_of now - us_of start >= ms * 1000)%Z.
+
+(* "a locally generated error if its timeout expires": the wait gives up only when the timeout has expired *)
+Definition C17_timeout_not_early_full_statement : Prop :=
+  forall start now ms, normal start -> normal now -> (0 <= ms)%Z -> give_up start now ms = true -> expired start now ms.
